@@ -523,6 +523,7 @@ func propC05() *PropSpec {
 			js = append(js, Job{Pkg: "svg", Fn: "VerifSVGTwin", N: 0, ExpectFail: true, Desc: "vacuity twin"})
 			js = append(js, jobsN("svg", "VerifSVGEntities", pick(rng(0, 2), rng(0, 3)), "<svg><text a=\"U..\">U..</text></svg>, <= n units each (references to < & > \" and text): well-formed, same character data and attribute value")...)
 			js = append(js, jobsN("svg", "VerifSVGColorAttr", []int{0}, "fill / stop-color = # + 3, 4, 6 or 8 symbolic hex digits over { 0 8 A }: same colour and alpha")...)
+			js = append(js, jobsN("svg", "VerifSVGViewBoxValues", []int{0}, "viewBox with 1..6 numbers x separators: the same numbers afterwards")...)
 			return js
 		},
 	}
